@@ -52,9 +52,12 @@ def check_basics(run):
                 obj = I.call(I.getattr(cls, "Create"), [vals[k] for k in K.ALLOWED[:5]], {"config": vals["config"]})
             if set(obj.fields) != set(K.ALLOWED) or any(obj.fields[k] is not vals[k] for k in K.ALLOWED):
                 problems.append(f"{how}: attributes are not exactly the six arguments: {sorted(obj.fields)}")
-            gp = I.call(I.getattr(obj, "get_params"), [], {})
-            if not isinstance(gp, PyDict) or set(gp.d) != set(K.ALLOWED) or any(gp.d[k] is not vals[k] for k in K.ALLOWED):
-                problems.append(f"{how}: get_params does not return exactly the six parameters")
+            # deep is optional (True by default; scikit-learn's clone asks with deep=False): the estimator has no nested estimators, so
+            # all three calls return exactly the six parameters
+            for dk in ({}, {"deep": False}, {"deep": True}):
+                gp = I.call(I.getattr(obj, "get_params"), [], dict(dk))
+                if not isinstance(gp, PyDict) or set(gp.d) != set(K.ALLOWED) or any(gp.d[k] is not vals[k] for k in K.ALLOWED):
+                    problems.append(f"{how}: get_params({dk}) does not return exactly the six parameters")
             I.call(I.getattr(obj, "set_params"), [], dict(gp.d))
             if any(obj.fields[k] is not vals[k] for k in K.ALLOWED):
                 problems.append(f"{how}: set_params(**get_params()) changed a parameter")
@@ -169,14 +172,21 @@ def native_checks(run, seeds):
         except Exception as e:
             if type(e).__name__ != "ModelConstructionError":
                 problems.append(f"unknown parameter raised {type(e).__name__}")
-        for ns, k, rows in ((1, 1, 6), (2, 1, 8), (1, 0, 6), (3, 2, 8)):  # the last one: a model WITHOUT controls (process_noise == {})
+        for ns, k, rows in ((1, 1, 6), (2, 1, 8), (1, 0, 6), (3, 2, 8)):  # the third one: a model WITHOUT controls (process_noise == {})
             run.native_runs += 1
             pr, _ = sklearn_native.fit_problems(seed, rows, ns, k)
             problems += pr
+        # a CALIBRATED model (drag in the dynamics, scale and bias in a sensor): the sensor models and calibration it started with
+        run.native_runs += 1
+        pr, _ = sklearn_native.fit_problems(seed, 8, 2, 1, calibrated=True)
+        problems += [f"calibrated model: {p}" for p in pr]
         run.native_runs += 1
         pr, _ = sklearn_native.fit_with_failing_optimiser(seed)
         problems += pr
         # success side of the optimiser boundary, with every Config field at a non-default value and with the defaults
+        run.native_runs += 1
+        pr, _ = sklearn_native.fit_with_succeeding_optimiser(seed, None, calibrated=True)
+        problems += [f"calibrated model: {p}" for p in pr]
         for ck in (None, {"innovation_filtering": None}):
             run.native_runs += 1
             pr, _ = sklearn_native.fit_with_succeeding_optimiser(seed, ck)
@@ -211,6 +221,20 @@ def check(run):
         run.bounded.append({"what": "native: get/set round trip, sklearn clone, two Config fields in one set_params call, flatten / inverse flatten on a 2-control 2-sensor estimator with non-alphabetical insertion order, unknown name, real fit on small data sets (outcome, names, positivity, restored parameters)", "bound": f"{3 if run.tier == 'thorough' else 1} seeds", "failures": len(problems), "counted_as_proved": False})
         for p in problems[:2]:
             run.findings.append(Finding("C17.py.native", p.split(":")[0][:40], p, {"language": "python", "inputs": {"kind": "native", "seed": run.seed}, "oracle_verdict": p}, True))
+    if not need:
+        # always (also in the quick tier): one real fit of a CALIBRATED estimator - model, sensor models, calibration and configuration
+        # it started with, compared by value
+        import contextlib
+        import io
+
+        run.native_runs += 1
+        with contextlib.redirect_stdout(io.StringIO()):
+            pr, _ = sklearn_native.fit_with_succeeding_optimiser(run.seed, None, calibrated=True)
+            pr = pr or sklearn_native.fit_problems(run.seed, 8, 2, 1, calibrated=True)[0]
+        run.bounded.append({"what": "native: fit of a calibrated 2-sensor estimator with a stub optimiser that reports success, and a real fit; outcome, names, positivity, and the model / sensor models / calibration / configuration it started with (by value)", "bound": "1 estimator x 8 rows", "failures": len(pr), "counted_as_proved": False})
+        for p in pr[:1]:
+            problems.append(f"calibrated model: {p}")
+            run.findings.append(Finding("C17.py.native", "calibrated-fit", f"calibrated model: {p}", {"language": "python", "inputs": {"kind": "native", "seed": run.seed}, "oracle_verdict": p}, True))
     for rep, ob, model, definitive in pending:
         if not problems and not definitive:
             run.undecided.append(ob.name)
